@@ -21,6 +21,10 @@ class C02(SchedProp):
         'CylcModel.C02.final_children_only_after_completion',
         'CylcModel.C02.retry_bound_states',
         'CylcModel.C02.retry_bound',
+        'CylcModel.C02.stepX_refines',
+        'CylcModel.C02.no_double_submit_pf',
+        'CylcModel.C02.retry_counters_bounded_pf',
+        'CylcModel.C02.retry_bound_pf',
         'CylcModel.C02.retry_automaton_bound',
     ]
     statement_note = (
@@ -39,12 +43,20 @@ class C02(SchedProp):
         'bare retry automaton, retry_automaton_bound). Partial: with suicide triggers a removed-and-respawned proxy '
         'starts with fresh try counters but keeps its submit number, so the bound is NOT proved there (def '
         'retry_bound_full); the judge checks the bound and "each resubmission is preceded by a retry with a retry '
-        'remaining" on every real run, whatever the graph')
+        'remaining" on every real run, whatever the graph. The model is extended (SchedPF, Sched itself unchanged) by '
+        'one outcome of job submission: the job-file preparation of some of the proxies a main loop sends to preparation '
+        'fails and is handled as submit-failed via the preparation path (real _prep_submit_task_job exception handler + '
+        '_prep_submit_task_job_error; the attempt consumes a submit number, nothing is launched); stepX_refines, '
+        'no_double_submit_pf, retry_counters_bounded_pf and retry_bound_pf carry the theorems over to the extended '
+        'model (attempts = launches + failed preparations). Not modelled: the waiting_on_job_prep flag itself (its '
+        'effect - a proxy whose preparation failed is not sent to preparation again without a retry - is what the '
+        'correspondence and the judge decide), the other preparation failure paths (platform / host selection)')
     technique = ('refinement of the Lean scheduler model to atomic actions + inductive invariants / launch-log relation '
                  'over all op lists + potential function on the retry automaton + trace correspondence + trace judge')
     trusted = ['the runner instrumentation (wrapper around process_message that records state before/after)']
     rule = ('as C01, two thirds of the runs of kind any (failures, submit failures, duplicate / stale / out-of-order '
-            'messages), tasks with 0-2 execution and 0-1 submission retry delays; non-trivial = distinct (kind, ending, '
+            'messages, late duplicates of the last message of finished jobs, job-file preparation failing for 15% of the '
+            'submissions: the real _prep_submit_task_job runs with JobFileWriter.write raising), tasks with 0-2 execution and 0-1 submission retry delays; non-trivial = distinct (kind, ending, '
             'launch-count class, polls) class per distinct case')
 
 
